@@ -259,3 +259,41 @@ PROPS['C04'] = dict(
                  'an exact rounding tie in an input coefficient lets the neighbouring p be accepted'],
     jobs=_c04,
 )
+
+# ------------------------------------------------------------------------------------------------ C09
+def _c09(tier, seed):
+    if tier == 'quick':
+        return J('c09.cpp', 'optim', 'spqlios-fma', n=12) + J('c09.cpp', 'optim', 'nayuki-portable', n=4, args=['part=rotate'])
+    jobs = []
+    for be in BE:
+        jobs += J('c09.cpp', 'optim', be, n=4, deadline=2400, timeout=3000)
+    jobs += J('c09.cpp', 'debug', 'fftw', n=6, deadline=2400, timeout=3000, args=['part=rotate'])
+    return jobs
+PROPS['C09'] = dict(
+    level='exploration',
+    rule='cases = (k, l, Bgbit, row kind, message m, position j, TLWE content) through the three external-product variants; (n, k, l, Bgbit, exponent vector) through tfhe_blindRotate[_FFT]. TGSW rows are built by the harness '
+         'with exact arithmetic and known errors e_p. oracle: phase(result) - m*phase(c) - sum dec_p*e_p within |m|_1 (1+kN) 2^(32-l Bgbit) + FFT budget (exact gadget + noiseless rows: FFT rounding only); variants agree at ciphertext level; '
+         'phase(acc_out) = X^(sum bara_i s_i) phase(acc_in); all-zero exponents leave the accumulator bit-identical. non-trivial = m != 0 and c non-trivial; rotations with a non-zero exponent',
+    bounds={'quick': '9 (k,l,Bgbit) cells incl. (8,4),(2,16),(1,8); m in {0,1,-1,X^1,X^512,X^1023,1+X,-X^(N-1),small-norm}; 6 TLWE contents; noisy rows for two layouts; n=1: bara = VERIF_SEED mod 16 class + boundaries, n=2,3: {0,1,N-1,N,N+1,2N-1}^n',
+            'thorough': 'X^j for every j on the default 80-bit layout (stride 97 elsewhere); every bara in [0,2N) for n=1; 5 back-ends'},
+    assumptions=['digits dec_p are those the library produces for a copy of the input (their correctness is C12)', 'FFT budget per product 2*max(1,Bg/2^10) units per coefficient, amplified by (1+kN) at phase level'],
+    jobs=_c09,
+)
+
+# ------------------------------------------------------------------------------------------------ C15
+def _c15(tier, seed):
+    jobs = J('c15.cpp', 'optim', 'spqlios-fma', n=12)
+    jobs += J('c15.cpp', 'debug', 'nayuki-portable', n=4, args=['default=none'])
+    if tier == 'thorough':
+        for be in ['fftw', 'nayuki-avx', 'spqlios-avx']:
+            jobs += J('c15.cpp', 'optim', be, n=6)
+    return jobs
+PROPS['C15'] = dict(
+    level='exploration',
+    rule='cases = (key set, gate, truth row, aliasing pattern) with patterns: unary {A,R}; binary {AB,RB,AR,AA,RR}; MUX {ABC,RBC,ARC,ABR,AAC,ABB,ABA,AAA,RRC,ARR,RBR,RRR} (R = the result object); '
+         '(parameter cell, evaluation function, content) for 17 evaluation functions. oracle: aliased result bytes == result of the same call on distinct copies; every non-result input byte-identical; deep hash of the '
+         'cloud key (parameters, key-switching rows, TGSW rows, FFT image) unchanged; generator state (operator<<) unchanged. non-trivial = call that bootstraps or decomposes',
+    bounds={'quick': 'tiny exact key (n=8): all gates x all rows x all patterns; 5 parameter cells (incl. l=1, k=2, exact gadgets) x 17 functions x 4 contents; default 128-bit key: 3 rows per gate x all patterns', 'thorough': '+ 80-bit default key, 4 back-ends'},
+    assumptions=['evaluation is deterministic (C06), so an aliased call can be compared byte-for-byte with the unaliased one'],
+    jobs=_c15,
+)
